@@ -7,7 +7,7 @@ from . import common as C
 from . import core
 from . import asmdiff as A
 
-FAULTS = ["unknown-directive", "bad-char", "prefix-op", "undefined", "range-now", "range-link", "range-link", "unsolved-link", "assert-now", "assert-link", "die", "duplicate"]
+FAULTS = ["unknown-directive", "after-wide", "bad-char", "prefix-op", "undefined", "range-now", "range-link", "range-link", "unsolved-link", "assert-now", "assert-link", "die", "duplicate"]
 
 
 def filler(rng):
@@ -35,6 +35,13 @@ def fault_line(rng, kind, uniq):
     pad = " " * rng.randint(0, 6)
     if kind == "unknown-directive":
         return [f"{pad}@bogus{uniq} 1"], (0, len(pad) + 1), []
+    if kind == "after-wide":
+        # multi-byte characters earlier on the same line: columns count characters, not bytes
+        pre = pad + rng.choice(['@db "Größe", ', '@db "é", ', '@db "€🤠", 1, ', '@db "ß", \\\n    "é🤠", '])
+        if "\n" in pre:
+            first, second = pre.split("\n")
+            return [first, second + "300"], (1, len(second) + 1), []
+        return [pre + "300"], (0, len(pre) + 1), []
     if kind == "bad-char":
         pre = f"{pad}@db 1, "
         ch = rng.choice("`[]==")
